@@ -230,7 +230,13 @@ func judgeCli(c *Ctx, cs []map[string]interface{}) map[string][]string {
 }
 
 func cliRunCfg(plan string, waits bool) string {
-	return fmt.Sprintf("SPECIFICATION Spec\nCONSTANTS\n  Plan <- %s\n  WaitsForSecondPipeline = %s\nINVARIANT AllOrNothing\nPROPERTIES Terminates ReadOnly\nCHECK_DEADLOCK FALSE\n", plan, tlaBool(waits))
+	return cliRunCfgLock(plan, waits, false)
+}
+
+// cliRunCfgLock: keepsLock = TRUE is the control in which the run keeps a file of its own in the git directory
+// while it scans (ReadOnly must be refuted).
+func cliRunCfgLock(plan string, waits, keepsLock bool) string {
+	return fmt.Sprintf("SPECIFICATION Spec\nCONSTANTS\n  Plan <- %s\n  WaitsForSecondPipeline = %s\n  MayBeStopped = TRUE\n  KeepsLockFile = %s\nINVARIANTS AllOrNothing ReadOnlyInv\nPROPERTIES Terminates ReadOnly\nCHECK_DEADLOCK FALSE\n", plan, tlaBool(waits), tlaBool(keepsLock))
 }
 
 // c10Repo: a repository with branches, an annotated tag, merges and a refgroup configuration.
